@@ -313,9 +313,47 @@ fn mode_c10(a: &Args) -> Value {
             samples.push(json!({"leap": leap, "age_ns": age.to_string(), "interval_s": wire::f64_of_bits(*iv), "from_state": state, "published_status": rec.status, "expected": expected}));
         }
     }
+    // The very same report again, later: what counts is the age when the report is processed.
+    // (chronyd keeps reporting the same reference time until it updates the clock again.)
+    let mut replayed = 0u64;
+    if a.shard == 0 {
+        for leap in [0u16, 1, 2] {
+            for ivl in [0.25f64, 1.0, 16.0, 64.0] {
+                for (first_frac, later_mult) in [(0.1f64, 2.0f64), (0.5, 1.2), (0.9, 1.01), (0.0, 8.5), (0.1, 0.5)] {
+                    let limit_ns = (8.0 * ivl * 1e9) as i128;
+                    let t1 = now_ns;
+                    let age1 = (limit_ns as f64 * first_frac) as i128;
+                    let r = Report { ref_id: 0, leap, ref_time_ns: t1 - age1, correction_bits: float_bits(1 << 10, 0), delay_bits: 0, dispersion_bits: 0, interval_bits: bits_of_f64(ivl) };
+                    clock::fixed::set((T0_REAL_S, 0), (5000, 0));
+                    d.send(Message::ClockErrorBoundData((tracking_of(&r), 0, ts(4100, 0))));
+                    let dt = (limit_ns as f64 * later_mult) as i128;
+                    let t2 = t1 + dt;
+                    for (when, t) in [("first", t1), ("replayed-later", t2)] {
+                        if when == "replayed-later" {
+                            clock::fixed::set(((t2 / NS) as i64, (t2 % NS) as i64), (5000 + (dt / NS) as i64, 0));
+                            d.send(Message::ClockErrorBoundData((tracking_of(&r), 0, ts(4100 + (dt / NS) as i64, 0))));
+                        }
+                        if !matches!(d.wait_publication(), Wait::Published) {
+                            return json!({"inconclusive": "writer thread did not answer", "evaluations": evaluations, "violations": violations});
+                        }
+                        let rec = *d.log.lock().unwrap().last().unwrap();
+                        let (expected, class) = classify(leap, t - (t1 - age1), bits_of_f64(ivl));
+                        replayed += 1;
+                        *cells.entry(format!("same-report-{}|{}", when, class)).or_insert(0) += 1;
+                        if let Some(e) = expected {
+                            if rec.status != e {
+                                violation(&mut violations, a, "C10", &format!("misclassified-{}-{}", class, when), format!("leap status {}, update interval {} s, report processed {} with its reference time {} ns old: published status {} expected {}", leap, ivl, when, t - (t1 - age1), rec.status, e), json!({"leap": leap, "interval": ivl, "when": when}));
+                            }
+                        }
+                    }
+                }
+            }
+        }
+        clock::fixed::set((T0_REAL_S, 0), (5000, 0));
+    }
     d.stop();
     let _ = std::fs::remove_dir_all(&dir);
-    json!({"evaluations": evaluations, "work_items": work.len(), "cells": cells, "slivers": slivers, "violations": violations, "samples": samples})
+    json!({"evaluations": evaluations + replayed, "work_items": work.len() as u64 + replayed, "replayed_reports": replayed, "cells": cells, "slivers": slivers, "violations": violations, "samples": samples})
 }
 
 // ------------------------------------------------------------------------------------ C08 / C09
